@@ -381,6 +381,14 @@ func e1Controls() []Ob {
 	}
 	obs = append(obs, Ob{ID: "E1", Fn: "zzverifctl.Bad_E1_oror", P: []string{"r"}, Kind: "call", Pat: "e1sink($r)", Req: []string{`neq($r.Client, "")`, "true(e1valid($r.ID))"}})
 	obs = append(obs, Ob{ID: "E1", Fn: "zzverifctl.Good_E1_loop", Kind: "call", Pat: "e1sink($r)", Req: []string{"ok(e1check($r.ID, $id))"}})
+	// helpers interpreted in place
+	for _, n := range []string{"Good_E1_sinkinhelper", "Good_E1_allinhelper", "Bad_E1_sinkinhelper", "Bad_E1_boolhelper", "Good_E1_booltemp"} {
+		obs = append(obs, Ob{ID: "E1", Fn: "zzverifctl." + n, P: []string{"r"}, Kind: "call", Pat: "e1sink($r)", Req: []string{"ok(e1check($r.ID, $id))"}})
+	}
+	// membership / quantified loop facts
+	for _, n := range []string{"Good_E1_allrange", "Good_E1_allindex", "Bad_E1_allskips", "Bad_E1_allbreaks"} {
+		obs = append(obs, Ob{ID: "E1", Fn: "zzverifctl." + n, P: []string{"r", "ids", "allowed"}, Kind: "call", Pat: "e1sinkAll($r, $ids)", Req: []string{"all($ids, member(ELEM, $allowed))"}})
+	}
 	return obs
 }
 
